@@ -14,9 +14,18 @@ has not been handed out again matches nothing: it is dropped and changes nothing
 `C12_timeout_leaves_others_registered` — when one operation times out and the driver handles its scrub, another
 operation waiting for its reply is untouched and still registered (the connection keeps serving it).
 The `_nowrap` forms need no schedule hypothesis (histories with at most 2^31-1 allocations).
+
+The search timer over WHOLE streams (namespace `Ldap3V.StreamTimed`, Model/StreamTimed.lean: `next_inner`
+as written, on a virtual clock; tied to the real stream by lane `timeouts`, command `tstream.run`):
+`C12_stream_timer_restarts` (+ `_gaps`, `_evenly`) — the timer restarts with every received item: if
+every element arrives less than T after the call that receives it started, the loop delivers all of
+them, however long that takes in total; `C12_stream_timeout_at_deadline` — the first element that is
+late for its call yields `timeout` at exactly that call's start + T, everything before it has been
+delivered, it is never delivered; `C12_stream_untimed_never_times_out`.
 -/
 import Ldap3V.Lemmas.ConnFinal
 import Ldap3V.Lemmas.ConnGaps
+import Ldap3V.Lemmas.StreamTimed
 namespace Ldap3V.Conn
 
 /-- The timeout law of one poll of a timed operation, for EVERY state:
@@ -356,3 +365,104 @@ example :
       [some .timeout, some .ack, some (.frame ⟨3, 11, 6, true⟩)] := by decide
 
 end Ldap3V.Conn
+
+/-! ## the search timer over a whole stream: `loop { stream.next() }` on a virtual clock
+
+Model/StreamTimed.lean: `nextAt` is `SearchStream::next_inner` as written (`time::timeout(T, rx.recv())`,
+deadline = start of THIS call + T), `drain` the caller's loop.  Here the restart of the timer is part
+of the model (each call computes its own deadline from its own start), not of the harness. -/
+namespace Ldap3V.StreamTimed
+
+/-- the law of one timed call: either it returns `timeout` at exactly its start + T and has consumed
+nothing, or it returns the head of the channel at the later of the head's arrival and the call's
+start — and then the head arrived no later than start + T -/
+theorem C12_stream_call_law (d : Nat) (tie : Bool) (t : Nat) (q : Chan) :
+    ((nextAt (some d) tie t q).1 = .timeout ∧ (nextAt (some d) tie t q).2.1 = t + d ∧ (nextAt (some d) tie t q).2.2 = q) ∨
+    (∃ a w rest, q = (a, w) :: rest ∧ nextAt (some d) tie t q = (deliver w, max a t, rest) ∧ a ≤ t + d) :=
+  nextAt_timed_law d tie t q
+
+/-- **the timer restarts with every received item.**  `InTime d think t0 q`: every element of the
+channel arrives less than `d` after the call that will receive it STARTED (not: after the search
+started).  Then the loop returns ALL elements, in order, each at the later of its arrival and the
+start of its call — no `timeout` among them, however large the total elapsed time; a `timeout`
+follows only if the channel does not end with done/closed, `d` after the start of the call that
+follows the last item.  (`think`: the caller's pauses between calls; `tie`: either order at a tie.) -/
+theorem C12_stream_timer_restarts (d : Nat) (tie : Bool) (think : List Nat) (t0 : Nat) (q : Chan)
+    (hwf : TerminalOnlyLast q = true) (hin : InTime d think t0 q) :
+    drain (some d) tie think t0 q =
+      delivered think t0 q ++ (if endsOpen q then [(Outcome.timeout, startAfter think t0 q + d)] else []) :=
+  drain_inTime d tie q think t0 hwf hin
+
+/-- the same read off the GAPS for a caller that calls back at once: first arrival less than `d`
+after the start, every further arrival less than `d` after the previous one -/
+theorem C12_stream_timer_restarts_gaps (d : Nat) (tie : Bool) (t0 : Nat) (q : Chan)
+    (hwf : TerminalOnlyLast q = true) (hg : GapsBelow d t0 q) :
+    drain (some d) tie [] t0 q =
+      delivered [] t0 q ++ (if endsOpen q then [(Outcome.timeout, startAfter [] t0 q + d)] else []) :=
+  drain_inTime d tie q [] t0 hwf (inTime_of_gaps d q t0 t0 (Nat.le_refl _) hg)
+
+/-- … and in closed form: `n` items with gap `g < d` are returned at `t0 + g, t0 + 2g, …, t0 + n*g`
+(`n*g` is not bounded by `d`); the time-out comes `d` after the LAST item, at `t0 + n*g + d` -/
+theorem C12_stream_timer_restarts_evenly (d g t0 : Nat) (tie : Bool) (toks : List Nat) (hg : g < d) :
+    drain (some d) tie [] t0 (evenly t0 g 1 toks) =
+      evenlyDelivered t0 g 1 toks ++ [(Outcome.timeout, t0 + toks.length * g + d)] := by
+  have h := drain_evenly d g t0 tie hg toks 0
+  simpa using h
+
+/-- **the converse: the time-out comes at the deadline of the call that waits.**  Items `pre` in
+time for their calls, then an element that arrives more than `d` after the start `ts` of the call
+waiting for it (or exactly `d` after it with the timer winning the tie): the loop delivers all of
+`pre`, that call returns `timeout` at exactly `ts + d`, and the loop is over — the late element and
+everything behind it is never delivered. -/
+theorem C12_stream_timeout_at_deadline (d : Nat) (tie : Bool) (think : List Nat) (t0 : Nat)
+    (pre : Chan) (a : Nat) (w : What) (post : Chan)
+    (hitems : pre.all (fun e => e.2.isItem) = true) (hin : InTime d think t0 pre)
+    (hlate : startAfter think t0 pre + d < a ∨ (startAfter think t0 pre + d = a ∧ 0 < d ∧ tie = false)) :
+    drain (some d) tie think t0 (pre ++ (a, w) :: post) =
+      delivered think t0 pre ++ [(Outcome.timeout, startAfter think t0 pre + d)] :=
+  drain_late d tie a w post pre think t0 hitems hin hlate
+
+/-- a stream without a timeout never returns `timeout`, whatever arrives whenever; it delivers
+every element and then waits forever (`hang`) unless the channel ended with done/closed -/
+theorem C12_stream_untimed_never_times_out (tie : Bool) (think : List Nat) (t0 : Nat) (q : Chan) :
+    (∀ p ∈ drain none tie think t0 q, p.1 ≠ Outcome.timeout) ∧
+    (TerminalOnlyLast q = true →
+      drain none tie think t0 q =
+        delivered think t0 q ++ (if endsOpen q then [(Outcome.hang, startAfter think t0 q)] else [])) :=
+  ⟨drain_untimed_no_timeout tie q think t0, drain_untimed tie q think t0⟩
+
+/-! ### non-vacuity -/
+
+/-- T = 10, five items 9 apart: total 45 > T, all delivered, the time-out only 10 after the last -/
+example : GapsBelow 10 0 [(9, .item 1), (18, .item 2), (27, .item 3), (36, .item 4), (45, .item 5)] ∧
+    drain (some 10) true [] 0 [(9, .item 1), (18, .item 2), (27, .item 3), (36, .item 4), (45, .item 5)] =
+      [(.item 1, 9), (.item 2, 18), (.item 3, 27), (.item 4, 36), (.item 5, 45), (.timeout, 55)] := by decide
+
+example : evenly 0 9 1 [1, 2, 3, 4, 5] = [(9, .item 1), (18, .item 2), (27, .item 3), (36, .item 4), (45, .item 5)] := by decide
+
+/-- … ending with the final result: no time-out at all -/
+example : TerminalOnlyLast [(9, .item 1), (18, .item 2), (27, .done 3)] = true ∧
+    InTime 10 [] 0 [(9, .item 1), (18, .item 2), (27, .done 3)] ∧
+    drain (some 10) false [] 0 [(9, .item 1), (18, .item 2), (27, .done 3)] = [(.item 1, 9), (.item 2, 18), (.done 3, 27)] := by decide
+
+/-- a slow caller: the item that arrived during the think time is returned at once, and the clock
+of the next call starts only then (30 > 9 + 10, yet in time for ITS call, which started at 25) -/
+example : InTime 10 [16, 0] 0 [(9, .item 1), (20, .item 2), (30, .item 3)] ∧
+    drain (some 10) true [16, 0] 0 [(9, .item 1), (20, .item 2), (30, .item 3)] =
+      [(.item 1, 9), (.item 2, 25), (.item 3, 30), (.timeout, 40)] := by decide
+
+/-- gap 11 at the third item: two items, then the time-out at 18 + 10, the third is never delivered -/
+example :
+    let pre : Chan := [(9, .item 1), (18, .item 2)]
+    pre.all (fun e => e.2.isItem) = true ∧ InTime 10 [] 0 pre ∧ startAfter [] 0 pre + 10 < 29 ∧
+    drain (some 10) true [] 0 (pre ++ (29, .item 3) :: [(30, .done 4)]) = [(.item 1, 9), (.item 2, 18), (.timeout, 28)] := by decide
+
+/-- the tie (gap exactly T): the item wins if it is made ready first, the timer otherwise -/
+example : drain (some 10) true [] 0 [(9, .item 1), (19, .item 2)] = [(.item 1, 9), (.item 2, 19), (.timeout, 29)] ∧
+    drain (some 10) false [] 0 [(9, .item 1), (19, .item 2)] = [(.item 1, 9), (.timeout, 19)] := by decide
+
+/-- no timeout configured: gaps of any size, then the loop waits forever -/
+example : drain none true [] 0 [(9, .item 1), (5000, .item 2)] = [(.item 1, 9), (.item 2, 5000), (.hang, 5000)] ∧
+    drain none true [] 0 [(9, .item 1), (5000, .closed)] = [(.item 1, 9), (.closed, 5000)] := by decide
+
+end Ldap3V.StreamTimed
